@@ -603,7 +603,35 @@ fn main() {
     let tz_bases = ["AAA5BBB,M3.2.0,M11.1.0", "AAA-1BBB-0:30,J60/0,300/24", "<+0530>-5:30", "AAA0", "<-03>3<-02>,M10.1.0/1:30,M2.3.0/0:00:01", "AAA12:59:59BBB,0,365"];
     let n_mut = (files.len() + synth.len()) as u64;
     let only = replay_unit(&args);
-    let acc = explore_units(n_syn + n_sys + n_mut + 4 + tz_bases.len() as u64, CLASSES.len(), only, |u, acc| {
+    let footers = chrono_mc::zonegen::footer_zones();
+    let n_base = n_syn + n_sys + n_mut + 4 + tz_bases.len() as u64;
+    let acc = explore_units(n_base + 1, CLASSES.len(), only, |u, acc| {
+        if u == n_base {
+            // every kind of rule time in a footer: extended version-3 times of both signs with minute and second
+            // parts, the plain form in version 2
+            for (k, (z, version, v1, ind)) in footers.iter().enumerate() {
+                let bytes = write_tzif(z, *version, *v1, *ind);
+                if read_tzif(&bytes).as_ref() != Ok(z) {
+                    machinery(&format!("RefTzif writer/reader disagree on footer zone {}", k));
+                }
+                acc.transitions += 1;
+                acc.states += 1;
+                match guard(|| VerifZone::from_tzif(&bytes)) {
+                    Ok(Ok(vz)) => {
+                        let d = vz.debug();
+                        if same_content(acc, &d, &z.debug_string()) {
+                            acc.hit(ACC_EQ);
+                        } else {
+                            acc.violation("from_tzif:content", format!("zone with footer {} written as TZif v{} {:?} indicators={}", z.rule.as_ref().unwrap().to_tz_string(), version, v1, ind), z.debug_string(), d);
+                        }
+                        query_all(acc, &|| format!("footer zone #{}", k), &vz, &[0, 951_782_400]);
+                    }
+                    other => acc.violation("from_tzif:rejects-wellformed", format!("zone with footer {} written as TZif v{} {:?}", z.rule.as_ref().unwrap().to_tz_string(), version, v1), "Ok".into(), format!("{:?}", other.map(|r| r.map(|_| ())))),
+                }
+            }
+            acc.traces += 1;
+            return;
+        }
         if u < n_syn {
             let stride = if tier == Tier::Thorough { 1 } else { 5 };
             let mut code = u * SYN_CH;
